@@ -67,12 +67,31 @@ sensitivity)
 	rm -f "$VERIF"/replays/*.json
 	exit $missed
 	;;
+benign)
+	# every property-preserving variant under benign/ must leave all five checks silent
+	scratch=/tmp/iref-ben.$$
+	git -C /repo worktree add --detach "$scratch" HEAD -q || exit 2
+	trap 'git -C /repo worktree remove --force "$scratch" >/dev/null 2>&1' EXIT
+	alarms=0
+	for f in "$VERIF"/benign/*/patch.diff; do
+		git -C "$scratch" checkout -q -- . && git -C "$scratch" apply "$f" || { echo "CANNOT APPLY $f"; alarms=1; continue; }
+		res=""
+		for p in C04 C10 C11 C12 C20; do
+			IREF_REPO="$scratch" "$VERIF/check" "$p" quick >/dev/null 2>&1; rc=$?
+			res="$res $p=$rc"
+			[ $rc -ne 0 ] && alarms=1
+		done
+		echo "$(basename "$(dirname "$f")"):$res"
+	done
+	rm -f "$VERIF"/replays/*.json
+	exit $alarms
+	;;
 model)
 	# unit tests of the reference model
 	cd "$VERIF/sim" && exec cargo test --release --offline
 	;;
 *)
-	echo "usage: selftest.sh <bin> determinism|sensitivity|model" >&2
+	echo "usage: selftest.sh <bin> determinism|sensitivity|benign|model" >&2
 	exit 2
 	;;
 esac
